@@ -2039,6 +2039,151 @@ fn mp_stopped_incumbent_case(r: &mut Report, idx: u64, rng: &mut Rng, bin: &Path
     inc.finish();
 }
 
+
+/// (B1c) an authority that was asked to stop (SIGTERM / SIGINT) while requests are in flight keeps serving them for
+/// a while (graceful shutdown). It is still the store's authority — its background task keeps appending frames —
+/// so until it is gone nobody else may hold the lock. Observation is logical, not timed: a *foreign, live* pid in
+/// lock.json is seen first, and afterwards at least three more frames of the incumbent's own task stream (one
+/// every 100 ms, a stream only the incumbent can write) reach the log.
+fn mp_draining_incumbent_case(r: &mut Report, idx: u64, rng: &mut Rng, bin: &Path) {
+    use std::io::{Read as _, Write as _};
+    let store = Store::new("c18mpd");
+    let mut inc = match Proc::spawn(serve_cmd(bin, &store.data, &store.ws, "")) {
+        Ok(p) => p,
+        Err(e) => {
+            r.inconclusive(&format!("cannot spawn {}: {e}", bin.display()));
+            return;
+        }
+    };
+    let t0 = Instant::now();
+    while (inc.listening().is_none() || !ripd::authority_meta_path(&store.data).exists()) && inc.alive() && t0.elapsed() < Duration::from_secs(6) {
+        std::thread::sleep(Duration::from_millis(3));
+    }
+    let Some(ep) = inc.listening() else {
+        r.inconclusive(&format!("case {idx}: incumbent rip serve did not start"));
+        inc.finish();
+        return;
+    };
+    let addr = host_port(&ep);
+    // a background task that writes one line every 100 ms for ~4 s, and a client following its event stream
+    let task = http_json(
+        &addr,
+        "POST",
+        "/tasks",
+        Some(&json!({"tool":"bash","args":{"command":"i=0; while [ $i -lt 40 ]; do echo tick$i; i=$((i+1)); sleep 0.1; done"},"title":"c18-drain"})),
+        Duration::from_secs(3),
+    )
+    .and_then(|(_, v, _)| v.get("task_id").and_then(|x| x.as_str()).map(|s| s.to_string()));
+    let Some(task_id) = task else {
+        r.inconclusive(&format!("case {idx}: could not start the incumbent's background task"));
+        inc.finish();
+        return;
+    };
+    let mut held: Vec<std::net::TcpStream> = Vec::new();
+    for _ in 0..(1 + rng.usize(2)) {
+        if let Ok(sock) = addr.parse::<std::net::SocketAddr>() {
+            if let Ok(mut st) = std::net::TcpStream::connect_timeout(&sock, Duration::from_millis(500)) {
+                let _ = st.write_all(format!("GET /tasks/{task_id}/events HTTP/1.1\r\nhost: {addr}\r\naccept: text/event-stream\r\n\r\n").as_bytes());
+                let _ = st.set_read_timeout(Some(Duration::from_millis(400)));
+                let mut b = [0u8; 256];
+                let _ = st.read(&mut b);
+                held.push(st);
+            }
+        }
+    }
+    let task_frames = |data: &Path| -> u64 {
+        let b = std::fs::read(data.join("events.jsonl")).unwrap_or_default();
+        let needle = format!("\"stream_id\":\"{task_id}\"");
+        String::from_utf8_lossy(&b).lines().filter(|l| l.contains(&needle)).count() as u64
+    };
+    let sig = if rng.bool() { libc::SIGTERM } else { libc::SIGINT };
+    kill_pid(inc.pid, sig);
+    std::thread::sleep(Duration::from_millis(20 + rng.below(300)));
+    let n = 1 + rng.usize(3);
+    let mut procs: Vec<Proc> = Vec::new();
+    for _ in 0..n {
+        if let Ok(p) = Proc::spawn(serve_cmd(bin, &store.data, &store.ws, "")) {
+            procs.push(p);
+        }
+    }
+    let mut client = if rng.chance(1, 3) { Proc::spawn(client_cmd(bin, &store.data, &store.ws, "")).ok() } else { None };
+    // observe until the incumbent is gone (its own drain limit is 2 s) or 5 s
+    let mut foreign_seen: Option<(u32, u64)> = None; // (pid in lock.json, incumbent task frames at that instant)
+    let mut frames_after_foreign = 0u64;
+    let mut inc_frames_during_drain = 0u64;
+    let frames_at_signal = task_frames(&store.data);
+    let t1 = Instant::now();
+    while t1.elapsed() < Duration::from_secs(5) {
+        let alive = inc.alive();
+        let now_frames = task_frames(&store.data);
+        inc_frames_during_drain = now_frames.saturating_sub(frames_at_signal);
+        if let Some((_, at)) = foreign_seen {
+            frames_after_foreign = now_frames.saturating_sub(at);
+        } else if alive {
+            let lock = std::fs::read(ripd::authority_lock_path(&store.data)).ok();
+            if let Some(pid) = json_pid(&lock) {
+                let is_other = pid != inc.pid && (procs.iter().any(|p| p.pid == pid) || pid_alive(pid));
+                if is_other {
+                    foreign_seen = Some((pid, now_frames));
+                }
+            }
+        }
+        if !alive {
+            break;
+        }
+        std::thread::sleep(Duration::from_millis(10));
+    }
+    let inc_exited = !inc.alive();
+    drop(held);
+    r.eval();
+    r.count("mp_rounds", 1);
+    r.count("mp_rounds_incumbent_asked_to_stop_with_requests_in_flight", 1);
+    r.count("mp_draining_incumbent_task_frames_appended_after_the_signal", inc_frames_during_drain);
+    r.count("mp_serve_processes", procs.len() as u64 + 1);
+    if inc_frames_during_drain > 0 {
+        r.distinct_str(&format!("mp|draining_incumbent|sig{sig}|serve{}|client{}|foreign{}", procs.len(), client.is_some(), foreign_seen.is_some()));
+    }
+    let witness = json!({
+        "case": idx, "part": "multi_process", "leftover": "live_incumbent_draining_after_signal", "signal": sig,
+        "incumbent": {"pid": inc.pid, "endpoint": ep, "exited_within_5s": inc_exited},
+        "contenders": procs.iter().map(|p| p.pid).collect::<Vec<_>>(),
+        "foreign_pid_seen_in_lock_while_incumbent_alive": foreign_seen.map(|x| x.0),
+        "incumbent_task_frames_after_that": frames_after_foreign,
+        "incumbent_task_frames_after_signal": inc_frames_during_drain,
+    });
+    if foreign_seen.is_some() && frames_after_foreign >= 3 {
+        r.violation(
+            "C18/draining_incumbent_lost_its_lock/multi_process",
+            &format!(
+                "lock.json named another live process while the authority that had been asked to stop (pid {}) was still running and appended {} more frames of its own task stream afterwards",
+                inc.pid, frames_after_foreign
+            ),
+            witness.clone(),
+        );
+    } else if inc_frames_during_drain == 0 {
+        r.count("mp_draining_rounds_without_work_during_the_drain", 1);
+    } else {
+        r.count("mp_draining_rounds_lock_kept_until_exit", 1);
+    }
+    if idx % 4 == 0 {
+        r.sample(witness);
+    }
+    if let Some(c) = client.as_mut() {
+        kill_group(c.pid, libc::SIGKILL);
+        c.finish();
+        r.count("mp_cli_clients", 1);
+    }
+    for p in procs.iter_mut() {
+        p.finish();
+    }
+    inc.finish();
+    kill_stray_authority(&store.data, &store.ws, &[]);
+}
+
+fn pid_alive(pid: u32) -> bool {
+    pid > 1 && unsafe { libc::kill(pid as i32, 0) == 0 }
+}
+
 // ---------------------------------------------------------------------------------------------
 // (B2) multi-process: clients and servers against a store whose lock belongs to a LIVE party, including the
 // mixed-owner leftovers (lock.json and meta.json of different parties). Both recovery paths run on the real binary:
@@ -2806,6 +2951,10 @@ fn mp_case(r: &mut Report, cfg: &Cfg, idx: u64, rng: &mut Rng, bin: &Path) {
         mp_stopped_incumbent_case(r, idx, rng, bin, with_client);
         return;
     }
+    if rng.chance(1, 7) {
+        mp_draining_incumbent_case(r, idx, rng, bin);
+        return;
+    }
     let store = Store::new("c18mp");
     let (c1, c2) = (rng.usize(CRASH_RECIPES.len()), rng.usize(CRASH_RECIPES.len()));
     let left0 = *rng.pick(&[
@@ -3422,6 +3571,9 @@ pub fn run(cfg: &Cfg) -> i32 {
         } else if i == MIXED_BATCH_CASE {
             if have_bin {
                 mp_mixed_directed(&mut r, cfg, i, &mut rng, &bin);
+                // two graceful-shutdown rounds in every run (more follow at random among the multi-process cases)
+                mp_draining_incumbent_case(&mut r, i, &mut rng, &bin);
+                mp_draining_incumbent_case(&mut r, i + 1, &mut rng, &bin);
             }
         } else if have_bin && (i - N_DIRECTED) % mp_every == mp_every - 1 {
             mp_case(&mut r, cfg, i, &mut rng, &bin);
